@@ -167,6 +167,24 @@ func checkC03(c *hx.Checker) {
 				}
 			}
 			addCase(op, &ref.T{DT: dt, Shape: []int{len(pa)}, V: pa}, &ref.T{DT: dt, Shape: []int{len(pb)}, V: pb}, "op", true, "special-values")
+			// x OP x with one and the same tensor object (a node whose two inputs carry the same name);
+			// float x/x contains 0/0, the recorded Div-by-zero finding, and integer x/x divides by zero: skipped
+			if op != "Div" {
+				self := &ref.T{DT: dt, Shape: []int{n}, V: alpha}
+				exp, rerr := ref.Binary(op, self, self)
+				dom := binaryDomain(op, dt, true, rerr)
+				var exps []*ref.T
+				if exp != nil {
+					exps = []*ref.T{exp}
+				}
+				for _, rt := range []string{"op-same", "model-same"} {
+					if rt == "model-same" && !(dt.IsNumeric() || dt == ref.Bool) {
+						continue
+					}
+					jobs = append(jobs, opJob{id: fmt.Sprintf("%s/%s/self-operand/%s", op, dt, rt), tags: []string{"op=" + op, "dtype=" + dt.String(), "self-operand", "route=" + rt, "domain=" + string(dom)}, nt: true,
+						oc: &hx.OpCase{Op: op, Inputs: tjs(self, self), NOut: 1, Route: rt}, dom: dom, exp: exps, cmp: hx.Bits})
+				}
+			}
 			if len(za) > 0 {
 				addCase(op, &ref.T{DT: dt, Shape: []int{len(za)}, V: za}, &ref.T{DT: dt, Shape: []int{len(zb)}, V: zb}, "op", true, "special-values", "float-div-by-zero")
 			}
